@@ -182,6 +182,18 @@ CLAIMED: dict[str, tuple[str, str, str, str, str]] = {
         "configuration lint + guard-minimality of output statements + must-write on the CFG",
         "DESIGN §5 C29",
     ),
+    "C13": (
+        "other",
+        "Decides structural clauses of instantiation: every self-rebuilding method of the type/parameter classes passes every "
+        "defaulted constructor parameter (no field silently reset by a copy); the Instantiator's de Bruijn arithmetic is right "
+        "on all (index, #instantiated) pairs up to 4x3 for type and const variables and refuses to go under binders; "
+        "compile_variable_idx is the dense index for all monomorphisation masks up to length 4; instantiate_partial "
+        "re-indexes, instantiates bounds/comptime args and sets `preserve`. Run-time results and HUGR validity are not decided.",
+        "Trusted: ast parser, gsa/absint/pyeval.py. Two structural copies that drop a field without a demonstrated "
+        "consequence are listed as exemptions with their reason (printed as notes on every run).",
+        "field-preservation table check + finite abstract evaluation of index arithmetic",
+        "DESIGN §5 C13",
+    ),
 }
 
 NOT_APPLICABLE: dict[str, str] = {
